@@ -125,6 +125,8 @@ mod node;
 mod page;
 mod page_node;
 mod tx;
+#[cfg(feature = "verif-hooks")]
+pub mod verif;
 
 pub use bucket::Bucket;
 pub use cursor::{Buckets, Cursor, KVPairs, ToBuckets, ToKVPairs};
